@@ -1,35 +1,57 @@
 /-
   Memory regions and loop combinators used by the generated models (core-only).
   A `Region` is the content of the memory a pointer designates, indexed in 64-bit elements.
+
+  It is a STRUCTURE around the lookup function, not a bare function type: Lean's compiler eta-expands definitions
+  whose result type is a function, which would re-run a whole generated function body on every element read
+  (measured: exponential slowdown of the executable model).  `r i` is `r.get i` through the coercion.
 -/
 namespace GoldilocksVerif
 
-abbrev Region := Nat → BitVec 64
+structure Region where
+  get : Nat → BitVec 64
+
+instance : CoeFun Region (fun _ => Nat → BitVec 64) := ⟨Region.get⟩
 
 namespace Region
 
-def zero : Region := fun _ => 0#64
+@[ext] theorem ext' (a b : Region) (h : ∀ i, a i = b i) : a = b := by
+  cases a; cases b; congr; funext i; exact h i
+
+def zero : Region := ⟨fun _ => 0#64⟩
 
 /-- the region seen through `p + k` -/
-@[inline] def shift (r : Region) (k : Nat) : Region := fun i => r (k + i)
+def shift (r : Region) (k : Nat) : Region := ⟨fun i => r (k + i)⟩
 
 /-- `r[i] = v` -/
-@[inline] def set (r : Region) (i : Nat) (v : BitVec 64) : Region :=
-  fun j => if j = i then v else r j
+def set (r : Region) (i : Nat) (v : BitVec 64) : Region :=
+  ⟨fun j => if j = i then v else r j⟩
 
 /-- write back the region `s` that was handed out as `p + k` -/
-@[inline] def unshift (r : Region) (k : Nat) (s : Region) : Region :=
-  fun j => if k ≤ j then s (j - k) else r j
+def unshift (r : Region) (k : Nat) (s : Region) : Region :=
+  ⟨fun j => if k ≤ j then s (j - k) else r j⟩
 
-def ofList (l : List (BitVec 64)) : Region := fun i => l.getD i 0#64
+/-- `memcpy(dst, src, n elements)` -/
+def copyN (dst src : Region) (n : Nat) : Region := ⟨fun j => if j < n then src j else dst j⟩
+/-- `memset(dst, 0, n elements)` -/
+def zeroN (dst : Region) (n : Nat) : Region := ⟨fun j => if j < n then 0#64 else dst j⟩
+
+def ofList (l : List (BitVec 64)) : Region := ⟨fun i => l.getD i 0#64⟩
 
 def toList (r : Region) (n : Nat) : List (BitVec 64) := (List.range n).map r
 
+@[simp] theorem mk_apply (f : Nat → BitVec 64) (i : Nat) : (Region.mk f) i = f i := rfl
+theorem set_apply (r : Region) (i j : Nat) (v : BitVec 64) : (set r i v) j = if j = i then v else r j := rfl
 @[simp] theorem set_same (r : Region) (i : Nat) (v : BitVec 64) : (set r i v) i = v := by simp [set]
 theorem set_other (r : Region) (i j : Nat) (v : BitVec 64) (h : j ≠ i) : (set r i v) j = r j := by
   simp [set, h]
 @[simp] theorem shift_apply (r : Region) (k i : Nat) : (shift r k) i = r (k + i) := rfl
-@[simp] theorem shift_zero (r : Region) : shift r 0 = r := by funext i; simp [shift]
+@[simp] theorem shift_zero (r : Region) : shift r 0 = r := by ext i; simp [shift]
+theorem copyN_apply (d s : Region) (n j : Nat) : (copyN d s n) j = if j < n then s j else d j := rfl
+theorem zeroN_apply (d : Region) (n j : Nat) : (zeroN d n) j = if j < n then 0#64 else d j := rfl
+theorem unshift_apply (r : Region) (k : Nat) (s : Region) (j : Nat) :
+    (unshift r k s) j = if k ≤ j then s (j - k) else r j := rfl
+theorem ofList_apply (l : List (BitVec 64)) (i : Nat) : (ofList l) i = l.getD i 0#64 := rfl
 
 end Region
 
